@@ -72,6 +72,9 @@ func (m SIPMethod) String() string {
 // GetMethodNo converts from an ASCII SIP method name to the corresponding
 // numeric internal value.
 func GetMethodNo(buf []byte) SIPMethod {
+	if len(buf) == 0 {
+		return MOther
+	}
 	i := hashMthName(buf)
 	for _, m := range mthNameLookup[i] {
 		if bytes.Equal(buf, m.n) {
